@@ -13,6 +13,7 @@ from pddl_plus_parser.models import (
     Predicate,
     GroundedPredicate,
     NumericalExpressionTree,
+    ObjectType,
     construct_expression_tree,
 )
 
@@ -105,6 +106,13 @@ class ProblemParser:
             iterator += 2
             continue
 
+        # names that are not followed by "- <type>" are objects of the root type.
+        problem_objects.update(
+            {
+                name: PDDLObject(name=name, type=self.domain.types[ObjectType.name])
+                for name in same_type_objects
+            }
+        )
         return problem_objects
 
     def parse_grounded_numeric_fluent(
